@@ -8,8 +8,9 @@ import re
 from harness import project
 
 LANGNAME = {"A": "English (en)", "B": "French (fr)", "Z": "Zulu (zu)"}
-ABS = {v: k for k, v in LANGNAME.items()}
-ABS["default"] = "default"
+# concrete language names per case: distinct names, or two names that differ only by the bracketed subtag / by case
+LANGSETS = [LANGNAME, LANGNAME, {"A": "English (en)", "B": "English", "Z": "Zulu (zu)"}, {"A": "English", "B": "English (en)", "Z": "Zulu (zu)"},
+            {"A": "english", "B": "English", "Z": "Zulu (zu)"}]
 COL = {"label": "label", "hint": "hint", "guidance": "guidance_hint", "cmsg": "constraint_message", "rmsg": "required_message", "noapp": "noAppErrorString", "image": "image", "audio": "audio"}
 # q2's concrete name contains the name of a translatable column (names are free text; they must not be mistaken for column tags)
 Q2NAME = "q2_guidance_hint_x"
@@ -28,7 +29,7 @@ def cell_text(e, k, L, refs=False):
     return t
 
 
-def header(k, L, style):
+def header(k, L, style, names=LANGNAME):
     """style: '::' | ' :: ' | ':' | 'media' -- one delimiter style per sheet (pyxform splits every header of a sheet on '::' as
     soon as one header contains it, so styles cannot be mixed within a sheet)"""
     base = COL[k]
@@ -37,7 +38,7 @@ def header(k, L, style):
     if not L:
         return base
     d = "::" if style == "media" else style
-    return f"{base}{d}{LANGNAME[L]}"
+    return f"{base}{d}{names[L]}"
 
 
 def build(case, seed=0):
@@ -45,12 +46,13 @@ def build(case, seed=0):
     refs = bool(case.get("refs"))
     rnd = random.Random(f"itext:{seed}:{case['dl']}:{refs}:{sorted(map(tuple, case['cells']))}")
     cells = {(e, k, L): cell_text(e, k, L, refs) for e, k, L in case["cells"]}
+    names = rnd.choice(LANGSETS)
     hdrs = {}
     style = {"survey": rnd.choice(["::", "::", " :: ", ":", "media"]), "choices": rnd.choice(["::", "::", " :: ", ":", "media"])}
     for (e, k, L) in sorted(cells):
         sheet = "choices" if e in CHOICES else "survey"
         if (sheet, k, L) not in hdrs:
-            hdrs[(sheet, k, L)] = header(k, L, style[sheet])
+            hdrs[(sheet, k, L)] = header(k, L, style[sheet], names)
     srows = [
         {"type": "text", "name": "q0", "label": "Q0"} if refs else None,
         {"type": "text", "name": "q1", "constraint": ". != 'x'", "required": "yes"},
@@ -85,12 +87,12 @@ def build(case, seed=0):
     if case["dl"]:
         mode = rnd.choice(["settings", "argument", "argument_beside_settings_sheet"])
         if mode == "settings":
-            sheets.append({"name": "settings", "header": ["default_language"], "rows": [[LANGNAME[case["dl"]]]]})
+            sheets.append({"name": "settings", "header": ["default_language"], "rows": [[names[case["dl"]]]]})
         else:
-            kwargs["default_language"] = LANGNAME[case["dl"]]
+            kwargs["default_language"] = names[case["dl"]]
             if mode == "argument_beside_settings_sheet":
                 sheets.append({"name": "settings", "header": ["form_title"], "rows": [["A title"]]})
-    src = {"dl": case["dl"], "cells": [[e, k, L, t] for (e, k, L), t in sorted(cells.items())]}
+    src = {"dl": case["dl"], "cells": [[e, k, L, t] for (e, k, L), t in sorted(cells.items())], "names": names}
     return {"sheets": sheets}, src, kwargs
 
 
@@ -110,6 +112,8 @@ def _pieces_text(pieces):
 def observe(xform: str, src) -> dict:
     root = project.parse(xform)
     it = project.itext(root)
+    ABS = {v: k for k, v in (src.get("names") or LANGNAME).items()}
+    ABS["default"] = "default"
     langs = [ABS.get(l, "?" + str(l)) for l in it["langs"]]
     texts = {ABS.get(l, "?" + str(l)): v for l, v in it["texts"].items()}
     body = project.body_preorder(root)
